@@ -81,6 +81,9 @@ At the end: restore the sources (`git checkout -- .` so `git status` shows only 
 and `rm -rf {d}/target {d}/site` to free disk. Keep `seed_out/`.
 
 Your final reply: for each of A and B, three lines — mechanism, what it needs to manifest, verification results.
+If, while working, you notice an input for which the UNCHANGED code already violates the property as stated, add one
+paragraph about it at the end (the exact input and what happens); do not build your changes on it.
+Keep each individual reply short: write files with tools instead of printing long content.
 """
     open(d+'/seed_out/TASK.md','w').write(task)
 print('ok')
